@@ -93,9 +93,12 @@ pub fn run(seed: u64, count: usize, outdir: &str) -> std::io::Result<i32> {
         let mut r = rng.fork();
         let mut bad: Vec<String> = vec![];
         let kind = ci % 4;
-        let jit = r.chance(0.5);
+        // case 0: the round-2 witness for a stale cached simplification in the render handle: under 3 registers the simplified tape of
+        // max((x y)^2 + ((x + x) + (x - y)), x) is LONGER than its parent; 256 x 256, default tiles, pixel-perfect
+        let witness0 = ci == 0;
+        let jit = !witness0 && r.chance(0.5);
         // a quarter of the interpreter cases render with 3 registers: simplified tapes can then be LONGER than their parent
-        let vm3 = !jit && r.chance(0.25);
+        let vm3 = witness0 || (!jit && r.chance(0.25));
         let backend = if jit { "jit" } else if vm3 { "vm3" } else { "vm" };
         let mut line = String::new();
         let mut il = String::new();
@@ -178,8 +181,17 @@ pub fn run(seed: u64, count: usize, outdir: &str) -> std::io::Result<i32> {
         }
         match kind {
             0 => {
-                let g = if r.chance(0.6) { gen_csg(&mut r, false, false) } else { gen_expr(&mut r) };
-                let c = Cfg2 { w: r.range(1, 120) as u32, h: r.range(1, 120) as u32, tiles: gen_tiles(&mut r), mat: gen_mat3(&mut r), z: 0.0, pp: r.chance(0.3), threads: 0 };
+                let mut g = if r.chance(0.6) { gen_csg(&mut r, false, false) } else { gen_expr(&mut r) };
+                let mut c = Cfg2 { w: r.range(1, 120) as u32, h: r.range(1, 120) as u32, tiles: gen_tiles(&mut r), mat: gen_mat3(&mut r), z: 0.0, pp: r.chance(0.3), threads: 0 };
+                if witness0 {
+                    use fidget_core::context::Tree;
+                    let (x, y, _z) = Tree::axes();
+                    let u = (x.clone() * y.clone()).square() + ((x.clone() + x.clone()) + (x.clone() - y));
+                    let t = u.max(x);
+                    let mut ctx = fidget_core::context::Context::new(); let root = ctx.import(&t);
+                    g = GenShape { ctx, root, kind: "longer-simplification-witness" };
+                    c = Cfg2 { w: 256, h: 256, tiles: vec![128, 32, 8], mat: nalgebra::Matrix3::identity(), z: 0.0, pp: true, threads: 0 };
+                }
                 let (ts, ps, tp, total, co) = if jit { compare_pools!("render2d", |t, k| r2::<JitFunction>(&g, &c, t, k), tile) } else if vm3 { compare_pools!("render2d", |t, k| r2::<fidget_core::vm::GenericVmFunction<3>>(&g, &c, t, k), tile) } else { compare_pools!("render2d", |t, k| r2::<VmFunction>(&g, &c, t, k), tile) };
                 line = format!("c09 raster {} {} {} {}", c.w, c.h, c.tiles.len(), c.tiles.iter().map(|t| t.to_string()).collect::<Vec<_>>().join(" "));
                 il = format!("tasks {ts}");
